@@ -535,8 +535,9 @@ PROPS["C06"] = _cw3_prop("C06", 2, C06_CLAUSES, "ballots, totals and the group's
     "proposal, with weight >= 1 from the voter list / the group AT the proposal's start height; ballots and totals of existing "
     "proposals never change; cw3-fixed: total = sum of stored voters, ballots carry the voters' weights and never outweigh the "
     "total in any reachable state; cw3-flex: vote weight = Member{at start height}, which later group changes cannot alter "
-    "(C09), and proposer weight/total are the same snapshot PROVIDED no group change earlier in the block; c06_refuted proves "
-    "the full statement false otherwise (known finding D3). Tie to the Rust: S_C06 compares every new ballot with the real "
+    "(C09), and proposer weight/total are the same snapshot PROVIDED no group change earlier in the block; over every "
+    "interleaving of multisig and group transactions outside that class the ballots never outweigh the total "
+    "(c06_flex_ballots_within_total, both models composed); c06_refuted proves the full statement false otherwise (known finding D3). Tie to the Rust: S_C06 compares every new ballot with the real "
     "group's at-height answer and the start-of-block member list recorded by the harness (measured).")
 PROPS["C15"] = _cw3_prop("C15", 3, C15_CLAUSES, "deposit messages and balances",
     "Axiom-free Coq theorems: Propose with a native deposit is accepted only with exactly one coin of exactly the amount; a "
